@@ -29,7 +29,25 @@ SHARED_FUNCS = {"cook", "cook_check", "load", "_load", "build", "get",
                 "read", "mtime", "resolve_dotted"}
 
 _state = {"sched": None, "coarse": False, "installed": False,
-          "lines": 0, "starts": 0}
+          "lines": 0, "starts": 0, "focus": False}
+# source lines that read or write state shared between threads
+ACCESS_RE = re.compile(
+    r"self\._cooked|_v_last_read|setattr\(self|self\.__dict__|"
+    r"self\._render|getattr\(self\.template|self\.template\.__dict__|"
+    r"self\.registry|sys\.modules|module_cache|_pkg_digest|"
+    r"self\.cook_check\(\)|self\.cook\(|self\.content_type|"
+    r"self\.source\b|self\.body\b")
+_access_cache: dict = {}
+
+
+def is_access(code, line: int) -> bool:
+    key = (code.co_filename, line)
+    v = _access_cache.get(key)
+    if v is None:
+        import linecache
+        v = bool(ACCESS_RE.search(linecache.getline(code.co_filename, line)))
+        _access_cache[key] = v
+    return v
 _kind_cache: dict = {}
 
 
@@ -88,12 +106,16 @@ def _on_line(code, line):
     _state["lines"] += 1
     k = classify(code)
     if k == "gen":
-        sched.yield_point("gen:" + code.co_name)
+        if not _state["focus"]:
+            sched.yield_point("gen:" + code.co_name)
     else:
         name = code.co_name
+        base = os.path.basename(code.co_filename)
+        if _state["focus"] and base in ("utils.py", "tal.py", "i18n.py"):
+            return None
         sched.yield_point(
-            "line:%s:%s:%d" % (os.path.basename(code.co_filename), name, line),
-            interesting=name in SHARED_FUNCS)
+            "line:%s:%s:%d" % (base, name, line),
+            interesting=name in SHARED_FUNCS, access=is_access(code, line))
     return None
 
 
@@ -153,11 +175,13 @@ def install() -> None:
     _state["installed"] = True
 
 
-def attach(sched, coarse: bool = False) -> None:
+def attach(sched, coarse: bool = False, focus: bool = False) -> None:
     _state["sched"] = sched
     _state["coarse"] = coarse
+    _state["focus"] = focus
 
 
 def detach() -> None:
     _state["sched"] = None
     _state["coarse"] = False
+    _state["focus"] = False
